@@ -115,6 +115,10 @@ type prog struct {
 	feat  []string
 }
 
+// set once a case with differing results has been emitted: a search (obligation broken) stops at the first
+// concrete failing input
+var foundDiff bool
+
 type obs struct {
 	mu     sync.Mutex
 	hashes []string
@@ -200,6 +204,7 @@ func runBatch(c *hl.Ctx, batch []prog, repeats int) {
 			break
 		}
 		if len(o.texts) > 1 {
+			foundDiff = true
 			var ts []string
 			for _, t := range o.texts {
 				ts = append(ts, t)
@@ -288,6 +293,9 @@ func run(c *hl.Ctx) error {
 		if len(batch) == 16 {
 			runBatch(c, batch, repeats)
 			batch = nil
+			if c.Search && foundDiff {
+				break
+			}
 		}
 	}
 	if len(batch) > 0 {
